@@ -83,6 +83,39 @@ def hankel_rank(m):
     return rank(H)
 
 
+TIMPORTS = ("From Coq Require Import List Arith Bool ZArith QArith Qcanon.\nImport ListNotations.\nFrom GV.lib Require Import Semiring BigSum.\nFrom GV.model Require Import Tzeng.")
+TDEFS = ("Definition tlook (l : list (nat * nat * nat * Qc)) (a i j : nat) : Qc := fold_right (fun e acc => match e with (a', i', j', w) => if Nat.eqb a a' && Nat.eqb i i' && Nat.eqb j j' then (w + acc)%Qc else acc end) 0%Qc l.\n"
+         "Definition vlook (l : list (nat * Qc)) (i : nat) : Qc := fold_right (fun e acc => if Nat.eqb i (fst e) then (snd e + acc)%Qc else acc) 0%Qc l.\n"
+         "Definition decide (n : nat) (l : list (nat * nat * nat * Qc)) (d eta : list (nat * Qc)) : nat := match @counterexample QcFR (seq 0 n) (tlook l) (vlook d) (vlook eta) [0%nat; 1%nat] 60 with None => 2%nat | Some None => 0%nat | Some (Some _) => 1%nat end.\n")
+
+
+def model_stream(ctx, pairs):
+    """the Coq model of the search (exact rationals) on the difference automaton of epsilon-free pairs:
+    decisions must agree with the implementation's (floats) and with exact equivalence"""
+    from common import coq_eval_values, cq
+
+    exprs, keep = [], []
+    for a, b in pairs:
+        if any(x[1] is None for x in a["arcs"] + b["arcs"]):
+            continue
+        sa, sb = F.states_of(a), F.states_of(b)
+        ia = {q: k for k, q in enumerate(sa)}
+        ib = {q: len(sa) + k for k, q in enumerate(sb)}
+        n = len(sa) + len(sb)
+        arcs = [(x, ia[i], ia[j], Fraction(w)) for i, x, j, w in a["arcs"]] + [(x, ib[i], ib[j], Fraction(w)) for i, x, j, w in b["arcs"]]
+        d = [(ia[q], Fraction(w)) for q, w in a["init"]] + [(ib[q], -Fraction(w)) for q, w in b["init"]]
+        eta = [(ia[q], Fraction(w)) for q, w in a["final"]] + [(ib[q], Fraction(w)) for q, w in b["final"]]
+        L = "[" + "; ".join(f"({x}%nat, {i}%nat, {j}%nat, {cq(w)})" for x, i, j, w in arcs) + "]"
+        D = "[" + "; ".join(f"({i}%nat, {cq(w)})" for i, w in d) + "]"
+        E = "[" + "; ".join(f"({i}%nat, {cq(w)})" for i, w in eta) + "]"
+        exprs.append(f"mkq (Z.of_nat (decide {n}%nat {L} {D} {E})) 1")
+        keep.append((a, b))
+    if not exprs:
+        return {}
+    vals = coq_eval_values(ctx, "tzeng-model", TIMPORTS, [("decide", TDEFS)], exprs, kind="qc", shard=40)
+    return {(json.dumps(a), json.dumps(b)): int(v) for (a, b), v in zip(keep, vals)}
+
+
 def run(ctx):
     quick = ctx.tier == "quick"
     ctx.cov["rule"] = ("pairs of small real-weighted automata with weights k/8 (equal up to renaming / useless states, or differing in one weight; epsilon arcs, redundant and useless states, empty language): counterexample / == / hash vs exact equivalence over the rationals "
@@ -98,6 +131,7 @@ def run(ctx):
         a = gen(ctx.rng)
         b, same = variant(ctx.rng, a) if ctx.rng.random() < 0.7 else (gen(ctx.rng), None)
         pairs.append((a, b))
+    model = model_stream(ctx, pairs) if ok else {}
     res = run_w([{"queries": [{"op": "equiv", "a": a, "b": b, "timeout": 20}, {"op": "min", "m": a, "xs": [list(x) for x in F.strings(2, 3)], "timeout": 20}]} for a, b in pairs])
     for (a, b), r in zip(pairs, res):
         L = len(F.states_of(a)) + len(F.states_of(b)) + 1
@@ -107,7 +141,15 @@ def run(ctx):
         ctx.count_case((json.dumps(a), json.dumps(b)), nontrivial=any(v != 0 for v in ta.values()))
         ctx.dist("equivalent" if equal else "different")
         ctx.cov["oracle_cases"] += 1
+        md = model.get((json.dumps(a), json.dumps(b)))
+        if md is not None:
+            if md == 2:
+                ctx.cov["model_out_of_fuel"] += 1
+            elif (md == 0) != equal:
+                ctx.broken.append(("model-vs-oracle(tzeng)", f"model decision {md} but exact equivalence is {equal}: {a} / {b}"))
         q = r[0]
+        if "ok" in q and md in (0, 1) and (q["ok"]["cex"] is None) != (md == 0):
+            ctx.broken.append(("correspondence(tzeng)", f"model decision {md}, implementation returned {q['ok']['cex']}: {a} / {b}"))
         if "err" in q:
             viol(ctx, f"equiv:error:{q['err'][:40]}", f"counterexample/== raised {q['err']}", {"kind": "equiv-error", "a": a, "b": b, "error": q["err"]})
         else:
